@@ -14,6 +14,9 @@ use rustzx_core::verif::TapeImpl;
 use serde_json::json;
 use std::collections::{BTreeMap, HashSet, VecDeque};
 
+static PROBES: std::sync::atomic::AtomicU64 = std::sync::atomic::AtomicU64::new(0);
+const PROBE_CAP: u64 = 48;
+
 #[derive(Clone, Copy, Debug, PartialEq, Eq, Hash)]
 enum Pos {
     /// nothing consumed yet: the next clock starts the first block
@@ -54,6 +57,9 @@ struct Model<'a> {
     windows: BTreeMap<usize, (usize, usize)>,
     name: String,
     blocks_json: serde_json::Value,
+    blocks: Vec<Vec<u8>>,
+    /// T-states within which a tape played from its start is certainly over
+    horizon: u64,
 }
 
 impl<'a> Model<'a> {
@@ -203,6 +209,33 @@ fn check_mapping(ctx: &Ctx, m: &Model, n: &Node, what: &str, hist: &serde_json::
     true
 }
 
+/// What a playing tape sounds like from now until it stops by itself (or `horizon` T pass): pulse
+/// durations between EAR edges in steps of 16 T, closed by an open-ended silence.
+fn listen(t: &RTap, horizon: u64) -> (Vec<u64>, bool) {
+    let mut c = t.clone();
+    let mut level = c.current_bit();
+    let mut pulses = Vec::new();
+    let (mut now, mut last) = (0u64, 0u64);
+    let mut ended = false;
+    while now < horizon {
+        if c.process_clocks(16).is_err() {
+            break;
+        }
+        now += 16;
+        if c.current_bit() != level {
+            level = c.current_bit();
+            pulses.push(now - last);
+            last = now;
+        }
+        if c.verif_state().state.0 == TAG_STOP {
+            ended = true;
+            break;
+        }
+    }
+    pulses.push(now - last + 2 * SECOND);
+    (pulses, ended)
+}
+
 fn hist_json(m: &Model, n: &Node, act: Act) -> serde_json::Value {
     json!({"kind":"deck","tape":m.name,"blocks":m.blocks_json,
         "commands": trace_str(&n.trace), "next_action": format!("{:?}", act),
@@ -217,6 +250,7 @@ fn actions(m: &Model, n: &Node) -> Vec<Act> {
             if n.budget > 0 {
                 v.push(Act::Stop);
                 v.push(Act::Play);
+                v.push(Act::Rewind);
             }
         } else if n.budget > 0 {
             // with no command left nothing can read prev_state any more: the future is the
@@ -338,13 +372,54 @@ fn apply(ctx: &Ctx, m: &Model, n: &Node, act: Act) -> Option<Node> {
         }
         Act::Rewind => {
             x.budget -= 1;
-            x.trace.push((Act::Rewind, m.pos_class(n.deck.pos)));
+            x.trace.push((Act::Rewind, m.pos_class(n.deck.pos) + if n.deck.playing { "(playing)" } else { "" }));
             if x.tap.rewind().is_err() {
                 ctx.violation("C12:rewind-error", "rewind failed on an in-memory asset", hist);
                 return None;
             }
             x.deck.pos = Pos::Start;
             let hist = hist_json(m, &x, act);
+            if n.deck.playing {
+                // rewind with the deck running: the deck keeps running and what it plays from here on
+                // must be the whole tape from its first block and nothing else. If the tape is exactly
+                // a fresh playing tape the search goes on from there; any other state is judged by
+                // what it sounds like to the end of the tape (silence before the first block is
+                // fine, material of the interrupted block is not) and the search stops there.
+                let mut fresh = new_tap(&m.chain.image);
+                fresh.play();
+                if tap_key_noprev(&x.tap) != tap_key_noprev(&fresh) {
+                    // listening to a whole tape costs millions of steps: the first PROBE_CAP such states
+                    // are judged, the rest is counted (on a tree where rewind restarts cleanly there are none)
+                    if PROBES.fetch_add(1, std::sync::atomic::Ordering::Relaxed) >= PROBE_CAP {
+                        ctx.note_add("rewind_while_playing_states_beyond_probe_cap", 1);
+                        return None;
+                    }
+                    ctx.note_add("rewind_while_playing_probes", 1);
+                    let (pulses, ended) = listen(&x.tap, m.horizon);
+                    let d = decode(&pulses, false);
+                    let verdict = match &d {
+                        _ if !ended => Some("tape-never-ends".to_string()),
+                        Ok(d) if d.blocks != m.blocks => Some(format!("decodes-to-{}-blocks-instead-of-{}", d.blocks.len(), m.blocks.len())),
+                        Ok(d) if !d.blocks.iter().zip(d.pilot_counts.iter()).all(|(b, c)| pilot_ok(b[0], *c)) => Some("short-pilot".to_string()),
+                        Ok(_) => None,
+                        Err(_) => Some("undecodable".to_string()),
+                    };
+                    if let Some(v) = verdict {
+                        ctx.violation(
+                            &format!("C12:rewind-while-playing:{}:{}", m.pos_class(n.deck.pos), v.split("-instead").next().unwrap_or("")),
+                            &format!(
+                                "tape {}: after [{}] (rewind issued while the deck is playing) the deck goes on playing, but what it plays until the tape ends is not the tape's blocks from the first one: {} (decoded blocks {:?}, pilot pulses {:?}; tape blocks {:?})",
+                                m.name, trace_str(&x.trace), v,
+                                d.as_ref().map(|d| d.blocks.iter().map(|b| crate::vcore::hex(b)).collect::<Vec<_>>()).unwrap_or_default(),
+                                d.as_ref().map(|d| d.pilot_counts.clone()).unwrap_or_default(),
+                                m.blocks.iter().map(|b| crate::vcore::hex(b)).collect::<Vec<_>>()
+                            ),
+                            hist,
+                        );
+                    }
+                    return None;
+                }
+            }
             if !check_mapping(ctx, m, &x, "rewind", &hist) {
                 return None;
             }
@@ -514,6 +589,8 @@ pub fn check_tape(ctx: &Ctx, name: &str, blocks: &[Vec<u8>], budget: u8, quick: 
             windows,
             name: format!("{}/{}", name, label),
             blocks_json: blocks_json.clone(),
+            blocks: blocks.to_vec(),
+            horizon: total_nominal * 2,
         };
         ctx.note_add("command_positions", positions(&m.windows));
         explore(ctx, &m, budget);
@@ -546,9 +623,9 @@ pub fn run(tier: Tier, seed: u64, replay: Option<String>) -> i32 {
         ctx.guard(&format!("tape {}", name), bj, || check_tape(&ctx, name, blocks, budget, quick));
     });
     ctx.note("command_budget", json!(budget));
-    ctx.note("not_judged", json!("rewind issued while playing (what the cut block sounds like); EAR level change caused by the rewind command itself"));
+    ctx.note("not_judged", json!("EAR level change caused by the rewind command itself"));
     ctx.finish(
-        "BFS over (real Tap, RefDeck) from a playing and a cold deck: at every T position inside the command windows (first pilot pulses, pilot->sync->first byte, last bits->pause head, pause tail->next pilot / end of tape, after the end) every command of {stop, play, rewind(while stopped)} up to the command budget, advance(1) inside windows and deterministic fast-forward between them; refinement mapping checked after every action; dedup on (complete Tap state incl. prev_state, RefDeck, remaining budget). distinct = distinct (prev_state, mode, command trace) outcomes",
+        "BFS over (real Tap, RefDeck) from a playing and a cold deck: at every T position inside the command windows (first pilot pulses, pilot->sync->first byte, last bits->pause head, pause tail->next pilot / end of tape, after the end) every command of {stop, play, rewind} up to the command budget (rewind also while the deck is playing: the deck must go on as a fresh playing tape, or else what it plays to the end of the tape is decoded and must be exactly the tape's blocks with full pilots), advance(1) inside windows and deterministic fast-forward between them; refinement mapping checked after every action; dedup on (complete Tap state incl. prev_state, RefDeck, remaining budget). distinct = distinct (prev_state, mode, command trace) outcomes",
         true,
         &["uninterrupted tape behaviour (the refinement target) is C11's verified chain", "prev_state is read only by play(): equality of all other fields implies equal futures until the next command"],
     )
